@@ -540,6 +540,39 @@ theorem tidemanTier_sim (smith : Bool) : ∀ (f : Nat) (rv rv' : Profile), Canon
     · rw [if_neg hE, if_neg hE]
       exact tierSel_sim σ hσ smith f ih hc hr (smithSchwartz_sim σ hσ hc hr smith)
 
+/-- the lone-candidate test of the repaired evaluators commutes with the renaming -/
+theorem lone_ren {rv rv' : Profile} (hc : CanonP rv) (hr : rv'.Perm (renProfileH σ rv)) :
+    (∀ c, allRankedCandidates rv = [c] → allRankedCandidates rv' = [σ c]) ∧
+    ((∀ c, allRankedCandidates rv ≠ [c]) → ∀ c', allRankedCandidates rv' ≠ [c']) := by
+  have hA : (allRankedCandidates rv').Perm ((allRankedCandidates rv).map σ) :=
+    (allRanked_perm hr).trans (allRanked_ren_perm σ hσ hc)
+  constructor
+  · intro c h
+    rw [h] at hA
+    exact List.perm_singleton.mp hA
+  · intro hn c' h
+    rw [h] at hA
+    have hm := List.perm_singleton.mp hA.symm
+    cases hal : allRankedCandidates rv with
+    | nil => rw [hal] at hm; simp at hm
+    | cons a l =>
+      rw [hal] at hm
+      cases l with
+      | nil => exact hn a hal
+      | cons b l' => simp at hm
+
+theorem tidemanRunTier_sim (smith : Bool) (f : Nat) (rv rv' : Profile) (hc : CanonP rv) (hr : rv'.Perm (renProfileH σ rv)) :
+    ExceptEquiv (fun s₁ s₂ => SlotsEquiv [s₁] [s₂]) (tidemanRunTier smith f rv') ((tidemanRunTier smith f rv).map (renSlot σ)) := by
+  obtain ⟨hl1, hl2⟩ := lone_ren σ hσ hc hr
+  by_cases hl : ∃ c, allRankedCandidates rv = [c]
+  · obtain ⟨c, hcc⟩ := hl
+    unfold tidemanRunTier
+    rw [hcc, hl1 c hcc]
+    exact slotsEquiv_single_cand (σ c)
+  · have h1 : ∀ c, allRankedCandidates rv ≠ [c] := fun c e => hl ⟨c, e⟩
+    rw [tidemanRunTier_of_not_lone h1, tidemanRunTier_of_not_lone (hl2 h1)]
+    exact tidemanTier_sim σ hσ smith f rv rv' hc hr
+
 end
 
 end VL.Perm.Hyb
@@ -551,9 +584,16 @@ open VL VL.Condorcet VL.C10
     selection up to `SlotsEquiv` -/
 theorem benham_ren (σ : Cand → Cand) (hσ : Function.Injective σ) {p : Profile} (hp : Hyb.CanonP p) :
     ExceptEquiv SlotsEquiv (benham (Hyb.renProfileH σ p)) ((benham p).map (List.map (renSlot σ))) := by
-  unfold benham
-  rw [(Hyb.allRanked_ren_perm σ hσ hp).length_eq, List.length_map]
-  exact Hyb.benhamLoop_sim σ hσ hp (List.Perm.refl _) _ _ _ hp (List.Perm.refl _)
+  obtain ⟨hl1, hl2⟩ := Hyb.lone_ren σ hσ hp (List.Perm.refl _)
+  by_cases hl : ∃ c, allRankedCandidates p = [c]
+  · obtain ⟨c, hc⟩ := hl
+    rw [benham_lone hc, benham_lone (hl1 c hc)]
+    exact slotsEquiv_single_cand (σ c)
+  · have h1 : ∀ c, allRankedCandidates p ≠ [c] := fun c e => hl ⟨c, e⟩
+    rw [benham_of_not_lone h1, benham_of_not_lone (hl2 h1)]
+    unfold benhamCore
+    rw [(Hyb.allRanked_ren_perm σ hσ hp).length_eq, List.length_map]
+    exact Hyb.benhamLoop_sim σ hσ hp (List.Perm.refl _) _ _ _ hp (List.Perm.refl _)
 
 /-- **Tideman alternative (Smith or Schwartz): renaming equivariance** (shared ranks in canonical ascending form):
     literally the renamed result, or the same exception -/
@@ -561,21 +601,21 @@ theorem tideman_ren (σ : Cand → Cand) (hσ : Function.Injective σ) (smith : 
     tideman smith (Hyb.renProfileH σ p) = (tideman smith p).map (List.map (renSlot σ)) := by
   unfold tideman
   rw [(Hyb.allRanked_ren_perm σ hσ hp).length_eq, List.length_map]
-  have ht := Hyb.tidemanTier_sim σ hσ smith ((allRankedCandidates p).length + 3) p _ hp (List.Perm.refl _)
+  have ht := Hyb.tidemanRunTier_sim σ hσ smith ((allRankedCandidates p).length + 3) p _ hp (List.Perm.refl _)
   have hcont : ∀ c, (allRankedCandidates (Hyb.renProfileH σ p)).contains (σ c) = (allRankedCandidates p).contains c := by
     intro c
     rw [Bool.eq_iff_iff, List.contains_iff_mem, List.contains_iff_mem, (Hyb.allRanked_ren_perm σ hσ hp).mem_iff,
       List.mem_map_of_injective hσ]
-  cases h1 : tidemanTier smith ((allRankedCandidates p).length + 3) (Hyb.renProfileH σ p) with
+  cases h1 : tidemanRunTier smith ((allRankedCandidates p).length + 3) (Hyb.renProfileH σ p) with
   | error e₁ =>
-    cases h2 : tidemanTier smith ((allRankedCandidates p).length + 3) p with
+    cases h2 : tidemanRunTier smith ((allRankedCandidates p).length + 3) p with
     | error e₂ =>
       rw [h1, h2] at ht
       have : e₁ = e₂ := ht
       rw [this]; rfl
     | ok s₂ => rw [h1, h2] at ht; exact ht.elim
   | ok s₁ =>
-    cases h2 : tidemanTier smith ((allRankedCandidates p).length + 3) p with
+    cases h2 : tidemanRunTier smith ((allRankedCandidates p).length + 3) p with
     | error e₂ => rw [h1, h2] at ht; exact ht.elim
     | ok s₂ =>
       rw [h1, h2] at ht
